@@ -76,7 +76,8 @@ PROFILES = {
                 need=['buffer', 'map_async', 'zip'], modes=['async', 'async', 'threaded'], md=0.2, await_all=True, stalls=True, forward=True,
                 sinks=['native', 'tornado', 'future', 'sync']),
     'C04': dict(pool=SYNC_OPS + ASYNC_LOSSLESS + LOSSY, need=ASYNC_LOSSLESS + LOSSY + ['sink_async'],
-                modes=['async', 'async', 'async', 'threaded'], md=1.0, refs=True, inject_failures=True, stalls=True, falsy_dedup=True, sinks=['native', 'tornado', 'future', 'sync']),
+                modes=['async', 'async', 'async', 'threaded'], md=1.0, refs=True, inject_failures=True, stalls=True, falsy_dedup=True, lazy_attach=True,
+                sinks=['native', 'tornado', 'future', 'sync']),
     'C05': dict(pool=SYNC_OPS + ASYNC_LOSSLESS + LOSSY, modes=['loopless', 'async', 'async', 'threaded'], md=1.0, refs=True, stalls=True, falsy_dedup=True,
                 sinks=['sync', 'native', 'tornado', 'future']),
     'C08': dict(falsy_dedup=True, pool=['timed_window', 'partition_t', 'timed_window_unique', 'map', 'filter', 'buffer', 'flatten'],
@@ -405,7 +406,8 @@ class G:
 
     def lat_list(self):
         n = self.pick([1, 2, 3])
-        return [self.pick([None, 0, 0.25, 0.5, 1, 2, 5]) for _ in range(n)]
+        # (12 s: longer than the 10 s slices in which a blocking emit polls for completion)
+        return [self.pick([None, 0, 0.25, 0.5, 1, 2, 5, 12] if self.chance(0.15) else [None, 0, 0.25, 0.5, 1, 2, 5]) for _ in range(n)]
 
     def add_sink(self, p, mode):
         kinds = self.pf['sinks'] if mode != 'loopless' else ['sync']
@@ -413,6 +415,8 @@ class G:
         node = {'op': 'sink', 'up': [p], 'kind': kind}
         if kind != 'sync':
             node['lat'] = self.lat_list()
+        elif self.pf.get('lazy_attach') and self.chance(0.15):
+            node['attach_on_first'] = True
         self.add(node, None)
 
     def scenario(self, seed, index):
